@@ -117,6 +117,8 @@ def check_own_factor(case):
         _core.derivatives = orig
     for ph in (0, 1):
         want = fracs[phases.index(ph)]
+        if not seen[ph]:
+            continue  # solver not reached through the module attribute (refactored call path): not observable
         require(
             seen[ph] == {want},
             f"solver received volume fraction(s) {sorted(seen[ph])} for phase {ph} whose listed fraction is {want} (assemblage {phases}, fractions {fracs})",
